@@ -179,6 +179,8 @@ def run(tier, seed):
             distgen.disturb(rnd, node.obj, xa)
             mis = float(node.obj.misfit(xa.copy()))
             grad = col(node.obj.gradient(xa.copy()))
+        for key, what in distgen.inplace_consistency(rnd, node.obj, xa, node.desc):
+            violations.append(Violation(key, what, {"desc": node.desc, "point": x}))
         if not (math.isfinite(mis) and all(math.isfinite(g) for g in grad)):
             violations.append(Violation("nonfinite-inside", f"{node.desc}: misfit {mis}, gradient {grad} at interior point {x}", {"desc": node.desc, "point": x}))
             continue
